@@ -168,6 +168,11 @@ pub fn up_decompress(code: u8, data: &[u8]) -> std::io::Result<Vec<u8>> {
             flate2::read::GzDecoder::new(data).read_to_end(&mut out)?;
         }
         3 => {
+            // RFC 7932 section 9.1: the window-size prefix 0010001 (read LSB first) is reserved; the brotli crate uses it
+            // for its non-standard "large window" streams, which RFC decoders (browsers, other PMTiles readers) reject
+            if data.first().map_or(false, |b| b & 0x7f == 0x11) {
+                return Err(std::io::Error::new(std::io::ErrorKind::InvalidData, "brotli stream with a reserved window size (not RFC 7932)"));
+            }
             brotli::Decompressor::new(data, 4096).read_to_end(&mut out)?;
         }
         4 => {
